@@ -94,7 +94,7 @@ structure MapScripts where
 
 inductive Top
   | script (s : Script)
-  | raw (tok : Tok) (value : String)
+  | raw (tok : Tok) (valueTok : Tok) (value : String)
   | text (t : Text)                    -- a `text` statement (rendered through `Program.texts`)
   | movement (m : MovementStmt)
   | mart (tok : Tok) (name : String) (tokenItems : List Tok) (items : List String) (scope : TT)
